@@ -3,6 +3,9 @@
 //!
 //!   harness gen <scenario> --seed S --traces N --ops M     generate + execute
 //!   harness replay                                         execute op lines from stdin
+//!   harness enum <scenario> --depth D [--shard I --of N]   every op sequence of length D over the scenario's
+//!                                                          small-scope alphabet(s) (pruned after a failing op)
+//!   harness enum <scenario> --describe                     the variants and alphabets, as text
 mod common;
 mod registry;
 include!("scen_mods.rs");
@@ -69,6 +72,103 @@ fn main() {
                 }
             }
         }
+        Some("enum") => {
+            let name = args.get(2).expect("scenario");
+            let mut depth = 2usize;
+            let mut shard = 0u64;
+            let mut of = 1u64;
+            let describe = args.iter().any(|a| a == "--describe");
+            let mut i = 3;
+            while i + 1 < args.len() {
+                match args[i].as_str() {
+                    "--depth" => depth = args[i + 1].parse().unwrap(),
+                    "--shard" => shard = args[i + 1].parse().unwrap(),
+                    "--of" => of = args[i + 1].parse().unwrap(),
+                    _ => {}
+                }
+                i += 1;
+            }
+            let mut scen = make(name).unwrap_or_else(|| {
+                eprintln!("unknown scenario {name}");
+                std::process::exit(2)
+            });
+            let mut tid = 1_000_000u64;
+            let mut variant = 0u64;
+            loop {
+                scen.start(0, tid);
+                let ss = match scen.small_scope(variant) {
+                    Some(ss) => ss,
+                    None => break,
+                };
+                let n = ss.alphabet.len();
+                if describe {
+                    writeln!(out, "variant {variant}: prefix {} lines, alphabet {} ops", ss.prefix.len(), n).unwrap();
+                    for l in &ss.prefix {
+                        writeln!(out, "  prefix   {l}").unwrap();
+                    }
+                    for l in &ss.alphabet {
+                        writeln!(out, "  alphabet {l}").unwrap();
+                    }
+                    variant += 1;
+                    continue;
+                }
+                if n == 0 || depth == 0 {
+                    variant += 1;
+                    continue;
+                }
+                // odometer over alphabet indices; a sequence is cut after its first failing op (a failed call leaves
+                // no trace in the state, so every continuation is covered by a shorter sequence) and the odometer
+                // skips everything that shares the failing prefix
+                let mut d = vec![0usize; depth];
+                'seqs: loop {
+                    let key = if depth >= 2 { (d[0] * n + d[1]) as u64 } else { d[0] as u64 };
+                    let mut cut = depth - 1;
+                    if key % of == shard {
+                        tid += 1;
+                        let header = scen.start(0, tid);
+                        writeln!(out, "{header}").unwrap();
+                        let mut run = |out: &mut dyn Write, scen: &mut Box<dyn Scenario>, op: &str| -> bool {
+                            writeln!(out, "{op}").unwrap();
+                            out.flush().unwrap();
+                            let ls = common::catch(|| scen.apply(op)).unwrap_or_else(|| vec!["> err harness_panic=1".to_string()]);
+                            let failed = ls.iter().any(|l| l.starts_with("> err"));
+                            for l in ls {
+                                writeln!(out, "{l}").unwrap();
+                            }
+                            out.flush().unwrap();
+                            failed
+                        };
+                        for l in &ss.prefix {
+                            run(&mut out, &mut scen, l);
+                        }
+                        for (pos, &ix) in d.iter().enumerate() {
+                            if run(&mut out, &mut scen, &ss.alphabet[ix]) && pos < depth - 1 {
+                                cut = pos;
+                                break;
+                            }
+                        }
+                    } else if depth >= 2 {
+                        cut = 1; // not ours: skip the whole block that shares the first two symbols
+                    }
+                    // increment at `cut`, zero below
+                    let mut pos = cut;
+                    loop {
+                        for z in d.iter_mut().skip(pos + 1) {
+                            *z = 0;
+                        }
+                        d[pos] += 1;
+                        if d[pos] < n {
+                            break;
+                        }
+                        if pos == 0 {
+                            break 'seqs;
+                        }
+                        pos -= 1;
+                    }
+                }
+                variant += 1;
+            }
+        }
         Some("replay") => {
             let stdin = std::io::stdin();
             let mut scen: Option<Box<dyn Scenario>> = None;
@@ -98,7 +198,7 @@ fn main() {
             }
         }
         _ => {
-            eprintln!("usage: harness gen <scenario> [--seed S --traces N --ops M --first K] | harness replay < ops");
+            eprintln!("usage: harness gen <scenario> [--seed S --traces N --ops M --first K] | harness enum <scenario> --depth D [--shard I --of N | --describe] | harness replay < ops");
             std::process::exit(2);
         }
     }
